@@ -421,3 +421,164 @@ def split_cond_scenarios(w: RealWorld):
                     f"the join condition `{label}` is split into {detail}, it has {n}: a predicate that is dropped is not part of the join (too many rows), "
                     "and the equality-only check of a full join does not see it"))  # fmt: skip
     return out
+
+
+def compile_query_scenarios(w: RealWorld):
+    """`SqlImpl.compile_query` interpreted on Query states with one clause field set at a time (and all together): the statement
+    carries exactly the clauses whose field is set, each with the field's entries in their order.
+    -> list of (description, ok, detail, clause)"""
+    p = w.p
+    cls_ = w.impl_cls()
+    f = w.env["SqlImpl"].methods["compile_query"].bind(cls_)
+    uuids = ["t.a", "t.b", "t.c"]
+
+    def fresh_state():
+        table = p.call(w.env["Label"], ["T:t", None])
+        table.attrs["select"] = Native(lambda: Term("select", (), {}, Var("T:t")), "table.select")
+        sqa_expr = {u: p.call(w.env["Label"], [u.split(".")[1], None]) for u in uuids}
+        return table, sqa_expr
+
+    def pred(i):
+        e = w.fn(f"p{i}", EW)
+        return e
+
+    def order(u):
+        c = p.new("tree.col_expr", "Col", name=u.split(".")[1], _ast=None, _uuid=u, _dtype=w.I, _ftype=w.F.ELEMENT_WISE)
+        return w.order(c)
+
+    cases = [
+        ("nothing but the select list", {}),
+        ("where", {"where": 2}),
+        ("group_by", {"group_by": ["t.b", "t.a"]}),
+        ("having", {"having": 2}),
+        ("order_by", {"order_by": ["t.c", "t.a"]}),
+        ("limit", {"limit": 5}),
+        ("limit 0", {"limit": 0}),
+        ("limit and offset", {"limit": 5, "offset": 2}),
+        ("offset without limit", {"offset": 2}),
+        ("every clause", {"where": 1, "group_by": ["t.a"], "having": 1, "order_by": ["t.a", "t.b"], "limit": 3, "offset": 1}),
+    ]
+    out = []
+    for label, spec in cases:
+        table, sqa_expr = fresh_state()
+        wh = [pred(i) for i in range(spec.get("where", 0))]
+        hv = [pred(10 + i) for i in range(spec.get("having", 0))]
+        q = p.new("backend.sql", "Query", select=["t.c", "t.a"], where=wh, having=hv, group_by=list(spec.get("group_by", [])),
+                  order_by=[order(u) for u in spec.get("order_by", [])], limit=spec.get("limit"), offset=spec.get("offset"))  # fmt: skip
+        want = {
+            "where": [e.attrs["_tag"] for e in wh], "having": [e.attrs["_tag"] for e in hv],
+            "group": [u.split(".")[1] for u in spec.get("group_by", [])] or None,
+            "order": [u.split(".")[1] for u in spec.get("order_by", [])],
+            "limit": spec.get("limit"), "offset": (spec.get("offset") or None) if spec.get("limit") is not None else None,
+            "select": ["c", "a"],
+        }  # fmt: skip
+        try:
+            sel = p.call(f, [table, q, sqa_expr])
+            got, frm = read_select(sel)
+        except PyRaise as e:
+            out.append((f"compile_query with {label}", False, f"SqlImpl.compile_query raises {e.name}: {e.msg} for a query state with {label}", "error"))
+            continue
+        norm = {
+            "where": _tags(got["where"]), "having": _tags(got["having"]),
+            "group": ([_name(x) for x in got["group"]] or None) if got["group"] is not None else None,
+            "order": [x.name[2:] if isinstance(x, Var) and x.name.startswith("O:") else repr(x) for x in got["order"]],
+            "limit": got["limit"], "offset": got["offset"] or None,
+            "select": [_name(x) for x in (got["select"] or [])],
+        }  # fmt: skip
+        for clause in ("where", "having", "group", "order", "limit", "offset", "select"):
+            ok = norm[clause] == want[clause]
+            out.append((f"compile_query with {label}: {clause} = {want[clause]}", ok,
+                        f"for a query state with {label} set compile_query renders {clause.upper()} as {norm[clause]}, the state says {want[clause]}"
+                        + (" (ORDER BY keys in priority order)" if clause == "order" else ""), clause))  # fmt: skip
+    return out
+
+
+_cq_runs: dict = {}
+
+
+def report_compile_query(chk, m, rule, clauses, floor=8):
+    """obligations from the interpreted `SqlImpl.compile_query`, restricted to the given clauses; False when undecided"""
+    from .rules.c17 import m_types_env
+
+    sql = chk.repo.mod("backend.sql")
+    cq = sql.func("SqlImpl.compile_query")
+    key = id(chk.repo)
+    if key not in _cq_runs:
+        try:
+            _cq_runs[key] = compile_query_scenarios(RealWorld(chk.repo, m_types_env(m)))
+        except (AnalysisError, SymbolicBranch) as e:
+            _cq_runs[key] = e
+    res = _cq_runs[key]
+    if isinstance(res, Exception):
+        chk.undecided.append(f"{rule}: SqlImpl.compile_query could not be interpreted ({str(res)[:160]})")
+        return False
+    n = 0
+    for desc, ok, detail, clause in res:
+        if clause in clauses or clause == "error":
+            n += 1
+            chk.ob(rule, sql, cq, desc, ok, detail)
+    chk.floor(rule, "compile_query clause valuations", n, floor)
+    return True
+
+
+def from_ast_scenarios(w: RealWorld):
+    """`Cache.from_ast` interpreted: (a) the cache of a source table lists the table's columns, in order, in both name maps and in
+    the scope, with no grouping; (b) for a tree it equals the fold of `Cache.update` over the verbs, with the cache of the right
+    subtree handed to verbs that have one.  -> list of (description, ok, detail)"""
+    p = w.p
+    out = []
+    fa = w.cache_cls.methods["from_ast"]
+    leaf, cache = w.source("t", ["a", "b", "c"])
+    A = cache.attrs
+    uu = [f"t.{n}" for n in "abc"]
+    facts = [
+        ("name_to_uuid lists the columns in table order", list(A["name_to_uuid"].items()) == [(n, f"t.{n}") for n in "abc"], f"name_to_uuid = {dict(A['name_to_uuid'])}"),
+        ("uuid_to_name is its inverse, same order", list(A["uuid_to_name"].items()) == [(f"t.{n}", n) for n in "abc"], f"uuid_to_name = {dict(A['uuid_to_name'])}"),
+        ("the scope `cols` holds the table's own Col objects by identity", list(A["cols"]) == uu and all(A["cols"][f"t.{n}"] is leaf.attrs["cols"][n] for n in "abc"), f"cols keys = {list(A['cols'])}"),
+        ("no grouping", list(A["partition_by"]) == [], f"partition_by = {A['partition_by']}"),
+        ("derived from the table itself", set(A["derived_from"]) == {leaf}, f"derived_from has {len(A['derived_from'])} entries"),
+    ]  # fmt: skip
+    for d, ok, det in facts:
+        out.append((f"source table cache: {d}", ok, f"Cache.from_ast of a source table with columns a, b, c gives {det}: {d} does not hold"))
+
+    def snap(c):
+        a = c.attrs
+        return {
+            "name_to_uuid": list(a["name_to_uuid"].items()), "uuid_to_name": list(a["uuid_to_name"].items()), "cols": list(a["cols"]),
+            "partition_by": list(a["partition_by"]), "limit": a.get("limit"), "is_aggregated": a.get("is_aggregated"), "is_filtered": a.get("is_filtered"),
+            "derived_from": len(a["derived_from"]),
+        }  # fmt: skip
+
+    def compare(label, node, want):
+        try:
+            got = p.call(fa, [node])
+        except PyRaise as e:
+            out.append((f"from_ast({label})", False, f"Cache.from_ast raises {e.name}: {e.msg} on the tree {label}"))
+            return
+        g, x = snap(got), snap(want)
+        diff = {k: (g[k], x[k]) for k in g if g[k] != x[k]}
+        out.append((f"from_ast({label}) = fold of update over the tree", not diff,
+                    f"Cache.from_ast on {label} differs from updating the cache verb by verb in {sorted(diff)}: {str(diff)[:200]}"))  # fmt: skip
+
+    cols = A["cols"]
+    n1 = w.obj("Select", child=leaf, select=[cols["t.c"], cols["t.a"]])
+    c1 = w.update(cache, n1)
+    compare("t >> select(c, a)", n1, c1)
+    n2 = w.obj("Rename", child=n1, name_map={"a": "x"})
+    c2 = w.update(c1, n2)
+    compare("t >> select(c, a) >> rename(a -> x)", n2, c2)
+    n3 = w.obj("Filter", child=n2, predicates=[w.fn("p", EW)])
+    c3 = w.update(c2, n3)
+    compare("t >> select >> rename >> filter", n3, c3)
+    leaf2, cache2 = w.source("o", ["z"])
+    r1 = w.obj("Filter", child=leaf2, predicates=[w.fn("q", EW)])
+    rc1 = w.update(cache2, r1)
+    for how in ("inner", "left"):
+        nj = w.obj("Join", child=n2, right=r1, on=w.lit(True), how=how, validate="m:m")
+        compare(f"(t >> select >> rename) >> join(o >> filter, how={how})", nj, w.update(c2, nj, right_cache=rc1))
+    leaf3, cache3 = w.source("v", ["c", "x"])
+    nu = w.obj("Union", child=n2, right=leaf3, distinct=False)
+    compare("(t >> select >> rename) >> union(v)", nu, w.update(c2, nu, right_cache=cache3))
+    nj2 = w.obj("Join", child=leaf2, right=n3, on=w.lit(True), how="inner", validate="m:m")
+    compare("o >> join(t >> select >> rename >> filter)", nj2, w.update(cache2, nj2, right_cache=c3))
+    return out
